@@ -234,3 +234,59 @@ func Harness_C14_commit_fault_intervening() {
 	}
 	zzverif.Reach("end")
 }
+
+// Discard under a fault: the k-th store write of Discard (the deletion of a staged
+// ref, or of the transaction record) fails once or kills the process. "Discarding
+// removes all staged refs and never touches a branch": a Discard that reports success
+// has removed every staged ref and the record; one that failed has left the record in
+// place, so that running Discard again finishes the job; no branch moves either way.
+func Harness_C14_discard_fault() {
+	t := zzSetup(zzverif.Param("branches", 2))
+	heads0 := map[string]string{}
+	for k, v := range t.rs.Refs {
+		if len(k) >= 6 && k[:6] == "heads/" {
+			heads0[k] = string(v)
+		}
+	}
+	check := func(label string) (stagedLeft int) {
+		nHeads := 0
+		for k, v := range t.rs.Refs {
+			if len(k) >= 6 && k[:6] == "heads/" {
+				nHeads++
+				zzverif.Assert("discard-never-touches-a-branch"+label, heads0[k] == string(v))
+			}
+			if len(k) >= 4 && k[:4] == "txs/" {
+				stagedLeft++
+			}
+		}
+		zzverif.Assert("discard-never-creates-or-deletes-a-branch"+label, nHeads == len(heads0))
+		return
+	}
+	t.f.At = zzverif.Int("faultAt", 0, len(t.names)+2)
+	t.f.Kind = zzverif.Choose("faultKind", 2)
+	crashed, err := zzrepo.TryCrash(func() error { return Discard(t.rs, t.id) })
+	failed := crashed || err != nil
+	if t.f.At == 0 {
+		zzverif.Assert("discard-succeeds-without-fault", !failed)
+	}
+	t.f.Reopen()
+	left := check("")
+	_, gerr := t.rs.GetTransaction(t.id)
+	if !failed {
+		zzverif.Assert("successful-discard-removed-every-staged-ref", left == 0)
+		zzverif.Assert("successful-discard-removed-the-transaction", gerr != nil)
+		zzverif.Reach("clean")
+	} else {
+		// a staged ref that outlives its transaction record can never be discarded
+		zzverif.Assert("failed-discard-keeps-the-transaction-while-staged-refs-remain", left == 0 || gerr == nil)
+		if gerr == nil {
+			c2, err2 := zzrepo.TryCrash(func() error { return Discard(t.rs, t.id) })
+			zzverif.Assert("rerun-of-discard-succeeds", !c2 && err2 == nil)
+			zzverif.Assert("rerun-of-discard-removed-every-staged-ref", check("-after-rerun") == 0)
+			_, gerr2 := t.rs.GetTransaction(t.id)
+			zzverif.Assert("rerun-of-discard-removed-the-transaction", gerr2 != nil)
+			zzverif.Reach("rerun")
+		}
+	}
+	zzverif.Reach("end")
+}
